@@ -2,6 +2,7 @@ package rt
 
 import (
 	"context"
+	"fmt"
 	"time"
 
 	"go.uber.org/cff"
@@ -83,10 +84,42 @@ func (s *schedEm) EmitScheduler(st cff.SchedulerState) {
 	if x.Quiet {
 		return
 	}
+	stamp()
 	x.schedStates.Add(1)
 	exec := st.Pending - st.Ready - st.Waiting
-	if st.Pending < 0 || st.Ready < 0 || st.Waiting < 0 || exec < 0 || exec > st.Concurrency || st.IdleWorkers != st.Concurrency-exec {
-		x.BadStates.Add(1)
+	bad := ""
+	switch {
+	case st.Pending < 0 || st.Ready < 0 || st.Waiting < 0 || st.IdleWorkers < 0:
+		bad = "negative count"
+	case exec < 0 || exec > st.Concurrency:
+		bad = "executing = Pending-Ready-Waiting out of [0, Concurrency]"
+	case st.IdleWorkers != st.Concurrency-exec:
+		bad = "IdleWorkers != Concurrency - executing"
+	case x.Limit > 0 && st.Concurrency != x.Limit:
+		bad = fmt.Sprintf("Concurrency != the directive's limit %d", x.Limit)
+	case x.MaxJobs > 0 && st.Pending > x.MaxJobs:
+		bad = fmt.Sprintf("more pending jobs than the directive has (%d)", x.MaxJobs)
+	}
+	if bad != "" {
+		if x.BadStates.Add(1) == 1 {
+			x.mu.Lock()
+			x.FirstBadState = fmt.Sprintf("%+v: %s", st, bad)
+			x.mu.Unlock()
+		}
+	}
+	if x.Sc.GateOpen == "report" {
+		// The held function is released by the first report, and the report
+		// lingers: with synchronous delivery the directive cannot return before
+		// EmitScheduler has.
+		x.OpenGate()
+		spinFor(2 * time.Millisecond)
+	}
+	t1 := stamp()
+	for {
+		m := x.LastStateExit.Load()
+		if t1 <= m || x.LastStateExit.CompareAndSwap(m, t1) {
+			break
+		}
 	}
 }
 
